@@ -51,6 +51,26 @@ fn index_json<K: ArrayKind>(a: &K::Index) -> String {
     out
 }
 
+fn nat_json<K: ArrayKind>(a: &K::Type<K::I>) -> String
+where
+    K::Type<K::I>: NaturalArray<K>,
+{
+    let mut out = String::from("[");
+    let mut i = K::I::zero();
+    let n = a.len();
+    let mut first = true;
+    while i < n {
+        if !first {
+            out.push(',');
+        }
+        first = false;
+        out.push_str(&format!("{:?}", a.get(i.clone())));
+        i = i + K::I::one();
+    }
+    out.push(']');
+    out
+}
+
 fn ff_json<K: ArrayKind>(f: &FiniteFunction<K>) -> String {
     format!("{{\"table\":{},\"target\":{:?}}}", index_json::<K>(&f.table), f.target)
 }
@@ -155,6 +175,90 @@ pub fn record_binary<K: ArrayKind, O, A>(
     emit(format!(
         "{{\"op\":\"{}\",\"props\":[\"suite\"],\"backend\":\"suite\",\"profile\":\"suite\",\"args\":{{\"f\":{},\"g\":{}}},\"obs\":{}}}",
         op, fj, gj, obs
+    ));
+}
+
+/// the shape of an open hypergraph (interfaces and incidence), all labels recorded as class 0;
+/// needs no bounds on the label types, for operations that never look at labels
+fn oh_shape_json<K: ArrayKind, O, A>(f: &OpenHypergraph<K, O, A>) -> String
+where
+    K::Type<K::I>: NaturalArray<K>,
+{
+    let zeros = |n: K::I| -> String {
+        let mut out = String::from("[");
+        let mut i = K::I::zero();
+        let mut first = true;
+        while i < n {
+            if !first {
+                out.push(',');
+            }
+            first = false;
+            out.push('0');
+            i = i + K::I::one();
+        }
+        out.push(']');
+        out
+    };
+    format!(
+        "{{\"s\":{},\"t\":{},\"h\":{{\"s\":{},\"t\":{},\"w\":{},\"x\":{}}}}}",
+        ff_json(&f.s),
+        ff_json(&f.t),
+        ic_json(&f.h.s),
+        ic_json(&f.h.t),
+        zeros(f.h.s.values.target.clone()),
+        zeros(f.h.s.sources.table.len())
+    )
+}
+
+/// record one unary operation on an open hypergraph whose result is an open hypergraph
+pub fn record_unary<K: ArrayKind, O, A>(op: &str, f: &OpenHypergraph<K, O, A>, result: &OpenHypergraph<K, O, A>)
+where
+    K::Type<K::I>: NaturalArray<K>,
+    K::Type<O>: Array<K, O> + PartialEq,
+    K::Type<A>: Array<K, A>,
+{
+    if !enabled() {
+        return;
+    }
+    let mut seen_w = Vec::new();
+    let mut seen_x = Vec::new();
+    let fj = oh_json(f, &mut seen_w, &mut seen_x);
+    let rj = oh_json(result, &mut seen_w, &mut seen_x);
+    emit(format!(
+        "{{\"op\":\"{}\",\"props\":[\"suite\"],\"backend\":\"suite\",\"profile\":\"suite\",\"args\":{{\"f\":{}}},\"obs\":{{\"tag\":\"val\",\"val\":{}}}}}",
+        op, fj, rj
+    ));
+}
+
+/// record one predicate on an open hypergraph (labels play no role)
+pub fn record_predicate<K: ArrayKind, O, A>(op: &str, f: &OpenHypergraph<K, O, A>, result: bool)
+where
+    K::Type<K::I>: NaturalArray<K>,
+{
+    if !enabled() {
+        return;
+    }
+    emit(format!(
+        "{{\"op\":\"{}\",\"props\":[\"suite\"],\"backend\":\"suite\",\"profile\":\"suite\",\"args\":{{\"f\":{}}},\"obs\":{{\"tag\":\"val\",\"val\":{}}}}}",
+        op,
+        oh_shape_json(f),
+        result
+    ));
+}
+
+/// record one call of `layer`: the layering function and the unvisited mask
+pub fn record_layer<K: ArrayKind, O, A>(f: &OpenHypergraph<K, O, A>, order: &FiniteFunction<K>, unvisited: &K::Type<K::I>)
+where
+    K::Type<K::I>: NaturalArray<K>,
+{
+    if !enabled() {
+        return;
+    }
+    emit(format!(
+        "{{\"op\":\"strict.layer\",\"props\":[\"suite\"],\"backend\":\"suite\",\"profile\":\"suite\",\"args\":{{\"f\":{}}},\"obs\":{{\"tag\":\"val\",\"val\":{{\"order\":{},\"unvisited\":{}}}}}}}",
+        oh_shape_json(f),
+        ff_json(order),
+        nat_json::<K>(unvisited)
     ));
 }
 
